@@ -37,6 +37,8 @@ FEATURES = {
     "lambda-reads": "print((lambda z_: (str({X})[:4], z_))(1))",
     "lambda-default-same-name": "print((lambda {X}={X}: str({X})[:4])(), (lambda *, {X}={X}: str({X})[:4])(), (lambda z_, {X}=[{X}]: str({X}[0])[:4])(0))",
     "lambda-kwonly-param": "print((lambda *, {X}: str({X})[:4])({X}='kw'), (lambda *{X}: len({X}))(1, 2), (lambda **{X}: sorted({X}))(a_=1))",
+    "lambda-star-and-kwargs": "print((lambda *a_, **{X}: (a_, sorted({X})))(1, k_=2), (lambda *{X}, **k_: ({X}, sorted(k_)))(1, k2_=2), (lambda z_, *a_, y_=1, **{X}: (z_, y_, sorted({X})))(0, q_=3))",
+    "def-star-and-kwargs": "def h3_(*a_, **{X}):\n    return a_, sorted({X})\ndef h4_(*{X}, **k_):\n    return {X}, sorted(k_)\nprint(h3_(1, k_=2), h4_(1, k2_=2))",
     "def-default-same-name": "def h2_({X}={X}, *, kw_={X}):\n    return str({X})[:4], str(kw_)[:4]\nprint(h2_())",
     "return-reads": "def r2_():\n    for j_ in [1, 2]:\n        if j_ == 2:\n            return str({X})[:4]\n    return None\nprint(r2_())",
 }
